@@ -25,6 +25,7 @@ from vp.common import (
     load_known,
     match_known,
     run_sharded,
+    safe_warmup,
     write_evidence,
 )
 
@@ -84,8 +85,7 @@ def main(argv=None):
             with open(args.replay) as f:
                 doc = json.load(f)
             case = doc["case"] if "case" in doc else doc
-            if hasattr(mod, "warmup"):
-                mod.warmup()
+            safe_warmup(mod)
             viol = _replay_case(mod, case)
             if viol is None:
                 print("REPLAY-OK property=%s %s" % (prop, args.replay))
@@ -96,8 +96,7 @@ def main(argv=None):
 
         stats = Stats()
         # 1. seconds-long regression tier: shrunk failures found during development
-        if hasattr(mod, "warmup"):
-            mod.warmup()
+        safe_warmup(mod)
         reg = sorted(glob.glob(os.path.join(VERIF, "regress", prop, "*.json")))
         reg_cases = []
         for path in reg:
@@ -145,7 +144,8 @@ def main(argv=None):
         print("VIOLATION property=%s replay=%s" % (prop, path))
         rc = 1
     wall = time.time() - t0
-    write_evidence(mod, ctx, stats, wall, len(new), known_lines)
+    if os.environ.get("VERIF_NOEVIDENCE") != "1":
+        write_evidence(mod, ctx, stats, wall, len(new), known_lines)
     print(
         "%s tier=%s seed=%d evaluations=%d distinct_nontrivial=%d violations=%d known=%d wall=%.1fs"
         % (prop, ctx.tier, ctx.seed, stats.evaluations, len(stats.nontrivial_keys), len(new), len(known_lines), wall)
